@@ -53,11 +53,20 @@ type chunkReader struct {
 	data        []byte
 	n           int
 	eofWithData bool
+	emptyFirst  bool
+	tick        bool
 }
 
 func (c *chunkReader) Read(p []byte) (int, error) {
 	if len(c.data) == 0 {
 		return 0, io.EOF
+	}
+	if c.emptyFirst {
+		// an empty read before every chunk (io.Reader allows 0, nil)
+		c.tick = !c.tick
+		if c.tick {
+			return 0, nil
+		}
 	}
 	if c.eofWithData && len(c.data) <= c.n && len(c.data) <= len(p) {
 		k := copy(p, c.data)
@@ -90,7 +99,9 @@ func runItemChunked(it *Item, chunk int) (r ItemResult) {
 		}()
 		files := make([]lang.InputFile, len(it.Inputs))
 		for i, in := range it.Inputs {
-			if chunk > 0 {
+			if chunk > 100000 {
+				files[i] = lang.InputFile{Name: in.Name, Reader: &chunkReader{data: append([]byte(nil), in.Data...), n: chunk - 100000, emptyFirst: true}}
+			} else if chunk > 0 {
 				files[i] = lang.InputFile{Name: in.Name, Reader: &chunkReader{data: append([]byte(nil), in.Data...), n: chunk}}
 			} else if chunk < 0 {
 				files[i] = lang.InputFile{Name: in.Name, Reader: &chunkReader{data: append([]byte(nil), in.Data...), n: -chunk, eofWithData: true}}
@@ -212,7 +223,8 @@ func runHistCase(c *HistCase, keep bool) Outcome {
 		chunks := make([]int, c.K)
 		for i := range chunks {
 			// negative: that many bytes per read, io.EOF together with the last ones
-			chunks[i] = []int{0, 1, -(1 << 20), 2, 3, -2, 7, 64}[i%8]
+			// above 100000: that many bytes (less 100000) per read, an empty read before each
+			chunks[i] = []int{0, 1, -(1 << 20), 2, 3, -2, 7, 64, 100001, 0, 100002, 1, 100005, -1, 2, 100001}[i%16]
 		}
 		same, err := spawnRunItems(&runItemsReq{Items: c.Items, Order: order, Chunks: chunks}, nil)
 		if err != nil {
@@ -309,6 +321,33 @@ func runHistCase(c *HistCase, keep bool) Outcome {
 		}
 		log.add('H', 'b', "BINARY executions=%d distinct=%d", len(results), len(distinct))
 		o.Shape = "binary:" + shapeOfItem(&it)
+		if len(distinct) == 1 && (c.OMode == "file" || c.OMode == "existing") && len(it.Inputs) == 1 {
+			// what -o FILE holds afterwards does not depend on what the path held before
+			other := map[string]string{"file": "existing", "existing": "file"}[c.OMode]
+			var two []string
+			for _, om := range []string{c.OMode, other} {
+				pc := &ProcCase{Prog: it.Prog, Selectors: it.Selectors, OMode: om}
+				for _, in := range it.Inputs {
+					pc.Inputs = append(pc.Inputs, ProcFile{Name: in.Name, Data: in.Data, Kind: "regular"})
+				}
+				res, err := runBinary(pc, "")
+				if err != nil {
+					return harness(err)
+				}
+				if res.exit != 0 {
+					// a failed run writes nothing: what the path held before is then all there is
+					two = nil
+					break
+				}
+				two = append(two, fmt.Sprintf("exit=%d ofile=%v:%q", res.exit, res.ofileOK, res.ofile))
+			}
+			o.Probes["o_file_fresh_vs_existing"]++
+			if len(two) == 2 && two[0] != two[1] {
+				o.Class = "nondeterministic-binary"
+				o.Msg = fmt.Sprintf("-o FILE holds different bytes depending on whether the path existed before (%s vs %s):\n%s\n%s", c.OMode, other, truncate(two[0], 500), truncate(two[1], 500))
+				return finish()
+			}
+		}
 		if len(distinct) == 1 && len(it.Inputs) == 1 {
 			// the same bytes on standard input, behind three kinds of descriptor
 			var viaStdin []string
@@ -682,7 +721,7 @@ func registerC10() {
 		Name:  "binary-env",
 		Count: func(tier string) int { return map[string]int{"quick": 300, "thorough": 20000}[tier] },
 		Gen: func(i int, t *Tape, tier string) any {
-			return &HistCase{Kind: "binary", Items: []Item{genItem(t)}, OMode: []string{"", "-", "file"}[t.Draw(3)]}
+			return &HistCase{Kind: "binary", Items: []Item{genItem(t)}, OMode: []string{"", "-", "file", "existing"}[t.Draw(4)]}
 		},
 		Run:         func(c any, keep bool) Outcome { return runHistCase(c.(*HistCase), keep) },
 		New:         func() any { return &HistCase{} },
